@@ -7,6 +7,7 @@
 
 pub mod choice;
 pub mod isolate;
+pub mod sched;
 
 use serde_json::{json, Map, Value as J};
 use std::collections::hash_map::DefaultHasher;
